@@ -755,6 +755,8 @@ pub(crate) fn is_journal(p: &str) -> bool {
 
 struct Verifier {
     worker: Worker,
+    /// per prefix: keys whose latest operation is a tombstone written by bulk ingestion, with the value it removed
+    ingest_tombstoned: Vec<BTreeMap<(String, Vec<u8>), Vec<u8>>>,
     states: Vec<Dump>,
     digests: Vec<u64>,
     seen: BTreeSet<(u64, usize, usize, bool)>,
@@ -887,6 +889,44 @@ impl Verifier {
                 }
             }
         }
+        // explained-by predicate F3 (ingested tombstone garbage-collected, journaled insert replayed by recovery):
+        // the image differs from an allowed prefix state only by keys whose latest operation at that prefix is an
+        // ingested tombstone and that show exactly the value the tombstone removed
+        for p in lo..=hi {
+            let exp = &self.states[p];
+            let mut extra = 0;
+            let mut ok = got.keys().collect::<BTreeSet<_>>() == exp.keys().collect::<BTreeSet<_>>();
+            if ok {
+                'outer: for (name, m) in &got {
+                    let e = &exp[name];
+                    for (k, v) in e {
+                        if m.get(k) != Some(v) {
+                            ok = false;
+                            break 'outer;
+                        }
+                    }
+                    for (k, v) in m {
+                        if !e.contains_key(k) {
+                            if self.ingest_tombstoned[p].get(&(name.clone(), k.clone())) == Some(v) {
+                                extra += 1;
+                            } else {
+                                ok = false;
+                                break 'outer;
+                            }
+                        }
+                    }
+                }
+            }
+            if ok && extra > 0 {
+                stats.inc("images.known_ingested_tombstone_gc");
+                return Err(Deviation::new(
+                    "known:ingested-tombstone-gc-journal-resurrection",
+                    format!(
+                        "{what}: the image equals the state after {p} operations except for {extra} key(s) whose latest operation is a tombstone written by bulk ingestion and that show the journaled value that tombstone removed"
+                    ),
+                ));
+            }
+        }
         let which = self.digests.iter().position(|d| *d == dg);
         let (sig, text) = match which {
             Some(p) if p < lo => (
@@ -951,14 +991,22 @@ fn crash_like_case(mode: &str, seed: u64, idx: u64, thorough: bool, stats: &mut 
         // model states after every prefix
         let mut model = Model::default();
         let mut states = vec![model_dump(&model)];
+        let tomb = |m: &Model| -> BTreeMap<(String, Vec<u8>), Vec<u8>> {
+            m.ks.iter()
+                .flat_map(|(k, s)| s.ingest_tombstoned.iter().map(move |(key, v)| ((ks_name(*k), key.clone()), v.clone())))
+                .collect()
+        };
+        let mut ingest_tombstoned = vec![tomb(&model)];
         for op in &plan.ops {
             model.apply(op);
             states.push(model_dump(&model));
+            ingest_tombstoned.push(tomb(&model));
         }
         let digests = states.iter().map(dump_digest).collect();
         let bounds = compute_bounds(&run.recs, &plan.ops, plan.manual);
         let mut ver = Verifier {
             worker: Worker::spawn(),
+            ingest_tombstoned,
             states,
             digests,
             seen: BTreeSet::new(),
@@ -1067,6 +1115,12 @@ fn crash_like_case(mode: &str, seed: u64, idx: u64, thorough: bool, stats: &mut 
             let mut run_check = |ver: &mut Verifier, fs: &FsImg, power: bool, lo: usize, hi: usize, what: String, stats: &mut Counts| -> Result<(), Deviation> {
                 match ver.check2(fs, power, power || plan.manual, lo, hi, &what, stats, &plan.ops) {
                     Ok(()) => Ok(()),
+                    Err(d) if d.sig == "known:ingested-tombstone-gc-journal-resurrection" => {
+                        if !soft.iter().any(|x: &Deviation| x.sig == d.sig) {
+                            soft.push(d);
+                        }
+                        Ok(())
+                    }
                     Err(d) if in_creation && (d.sig.ends_with(":open-failed")) => {
                         // explained-by predicate S9: crash inside database creation, before the version marker is complete
                         if !reported_creation_window {
@@ -1502,7 +1556,7 @@ pub fn main(args: &Args) -> i32 {
                 ("soft", J::Bool(softflag)),
             ]));
         };
-        if let Some(d) = soft.first() {
+        for d in soft.iter().take(3) {
             report(d, true);
         }
         match res {
